@@ -34,6 +34,15 @@ type Case struct {
 	FailAt int64    `json:"fail_at,omitempty"`
 	After  bool     `json:"after,omitempty"`
 	Window int      `json:"window,omitempty"` // ClientParallelPublishes (0 = default 10); the script never opens more handshakes than that
+
+	// Bystander "offline-full": a persistent subscriber to the publisher's topic
+	// is offline with a full session queue (size 2) - the memory backend skips
+	// such a session, which must not affect the publisher's handshakes
+	Bystander string `json:"bystander,omitempty"`
+
+	// set in replay files of the session-fault runs (see sessfault_test.go)
+	SF         bool  `json:"sf,omitempty"`
+	SessFailAt int64 `json:"sess_fail_at,omitempty"`
 }
 
 type verdict struct{ sig, msg string }
@@ -299,7 +308,8 @@ func (r *runner) awaitOr(typ packet.Type, s *slot, next int) *verdict {
 			}
 		}
 	}
-	return &verdict{"harness/await-loop", "too many resumes while awaiting " + typ.String()}
+	// (the fault plan cuts one connection at most: eight losses in a row are the broker's doing)
+	return &verdict{"handshake/never-terminates", fmt.Sprintf("the broker ended the connection 8 times in a row while the publisher awaited %s for id %d (resumed and retransmitted each time): the handshake never terminates", typ, s.id)}
 }
 
 // roundTrip proves through the broker's FIFO ack queue that no acknowledgement is pending.
@@ -445,8 +455,31 @@ func runCase(c *Case) (*verdict, result) {
 		if c.Window > 0 {
 			m.ClientParallelPublishes = c.Window
 		}
+		if c.Bystander == "offline-full" {
+			m.SessionQueueSize = 2
+		}
 	})
 	defer b.Shutdown()
+	if c.Bystander == "offline-full" {
+		o, oc := b.Dial("off")
+		if _, err := o.ConnectID("c07-off", false); err != nil {
+			return &verdict{"harness/bystander", err.Error()}, result{}
+		}
+		if _, err := o.Subscribe([]packet.Subscription{{Topic: "c07/t", QOS: 2}}); err != nil {
+			return &verdict{"harness/bystander", err.Error()}, result{}
+		}
+		o.Disconnect()
+		b.WaitClosed(oc)
+		f, _ := b.Dial("fill")
+		if _, err := f.ConnectID("c07-fill", true); err != nil {
+			return &verdict{"harness/bystander", err.Error()}, result{}
+		}
+		for i := 0; i < 2; i++ {
+			if err := f.Publish("c07/t", []byte(fmt.Sprintf("fill-%d", i)), 1, false); err != nil {
+				return &verdict{"harness/bystander", err.Error()}, result{}
+			}
+		}
+	}
 	b.Rec.SetAckMode(c.Mode)
 	r := &runner{c: c, b: b, unknown: map[packet.ID]int{}, tags: map[string]int{}, done: map[string]bool{}}
 	r.slots = [2]*slot{{}, {}}
@@ -529,12 +562,15 @@ func genScript(rt *rapid.T) *Case {
 	if c.Mode == "" || c.Mode == "goroutine" {
 		c.Window = rapid.SampledFrom([]int{0, 0, 1, 2}).Draw(rt, "window") // a small publish window that the script fills completely
 	}
+	if rapid.IntRange(0, 3).Draw(rt, "bystander") == 0 {
+		c.Bystander = "offline-full"
+	}
 	return c
 }
 
 func TestC07(t *testing.T) {
 	run := ev.Start("C07", "fault_enumeration")
-	run.Rule("publisher scripts of depth <= 8 over {PUBLISH/retransmit, await ack, PUBREL (also repeated and for unused ids), await PUBCOMP, drop+resume} for 2 packet ids, interpreted by a correct MQTT sender, x backend ack mode {sync, other goroutine, late, never}; each script is first run fault free and then once per (operation k, before/after) for EVERY packet the broker sends or receives on the publisher's connection(s). Oracle: recorded event history (ack precedes PUBACK/PUBCOMP, session holds the PUBLISH when PUBREC leaves, accepted hand-overs per QoS 2 message == 1, every PUBREL answered). non-trivial = a retransmission or resume happened; distinct by (script, mode, fault)")
+	run.Rule("publisher scripts of depth <= 8 over {PUBLISH/retransmit, await ack, PUBREL (also repeated and for unused ids), await PUBCOMP, drop+resume} for 2 packet ids, interpreted by a correct MQTT sender, x backend ack mode {sync, other goroutine, late, never} x bystander {none, an offline persistent subscriber to the same topic whose session queue is full}; each script is first run fault free and then once per (operation k, before/after) for EVERY packet the broker sends or receives on the publisher's connection(s). Oracle: recorded event history (ack precedes PUBACK/PUBCOMP, session holds the PUBLISH when PUBREC leaves, accepted hand-overs per QoS 2 message == 1, every PUBREL answered). Session faults: publisher scripts over {QoS 2 PUBLISH on 2 ids (fresh / DUP), PUBREL (also repeated), fresh QoS 1 PUBLISH, drop+resume} against a minimal accepting Backend whose per-client session (a wrapper of the library's MemorySession) fails its k-th operation, for EVERY k of the fault-free run; same oracle, judged at the publisher. non-trivial = a retransmission or resume happened, or a session fault; distinct by (script, mode, fault)")
 	run.Assume("exactly-once = no hand-over of a QoS 2 message after the backend acknowledged an earlier hand-over of it; a repeated hand-over while the earlier one is still unacknowledged (asynchronous backends) is a retry the backend must tolerate and is not judged")
 	defer run.Finish(t)
 
@@ -553,7 +589,7 @@ func TestC07(t *testing.T) {
 		if c.FailAt == 0 {
 			for k := int64(1); k <= res.ops; k++ {
 				for _, after := range []bool{false, true} {
-					fc := &Case{Mode: c.Mode, Ops: c.Ops, QoS: c.QoS, Window: c.Window, FailAt: k, After: after}
+					fc := &Case{Mode: c.Mode, Ops: c.Ops, QoS: c.QoS, Window: c.Window, Bystander: c.Bystander, FailAt: k, After: after}
 					faultRuns++
 					run.Eval(1)
 					fv, fres := runCase(fc)
@@ -599,6 +635,8 @@ func TestC07(t *testing.T) {
 	})
 	run.Set("fault_positions_enumerated", faultRuns)
 	run.Set("runs", runs)
+
+	sessionFaults(t, run)
 }
 
 func TestReplay(t *testing.T) {
@@ -611,6 +649,12 @@ func TestReplay(t *testing.T) {
 		t.Fatal(err)
 	}
 	for i := 0; i < 5; i++ {
+		if c.SF {
+			if v, _ := runSessionFault(&SFCase{SF: true, Ops: c.Ops, SessFailAt: c.SessFailAt}); v != nil {
+				t.Fatalf("VIOLATION reproduced: %s: %s", v.sig, v.msg)
+			}
+			continue
+		}
 		if v, _ := runCase(&c); v != nil {
 			t.Fatalf("VIOLATION reproduced: %s: %s", v.sig, v.msg)
 		}
